@@ -441,6 +441,18 @@ def run(ctx):
         ctx.check(not per_thread, "R09.5", f.id, "instance-is-one-per-process", "logger::instance() returns a thread_local object: every thread has its own logger - and with it its own sink object, "
                   "so whatever the sink keeps as a member (a mutex, a stream) is not shared by the threads that log", f)
     # one statement is one sink call (one lock scope): R10.4 re-evaluated
+    # ---- R09.8: the record arrives at the locked insertion with its length
+    ctx.rule("R09.8", "the thread-safe sinks take the formatted record as a std::string (a text that carries its length): a C-string view would end the record at its first NUL byte, "
+                      "the rest - with the line end - never reaches the stream and the next record is glued to the stump")
+    nsk = 0
+    for g in sorted(prog.fns.values(), key=lambda x: x.id):
+        if g.name == "sink" and g.has_cfg and (g.cls or "") in ("nitro::log::sink::stdout_mt", "nitro::log::sink::StdErrThreaded") and len(g.params) >= 2:
+            nsk += 1
+            t1 = (g.params[1].get("type") or "")
+            # ... or as a character range: a pointer together with a count
+            ranged = len(g.params) >= 3 and t1.rstrip().endswith("*") and "char" in t1 and bool(g.params[2].get("bits"))
+            ctx.check("basic_string<" in t1 or "std::string" in t1 or "string_view" in t1 or ranged, "R09.8", g, "record-carries-length:%s(%s)" % (short(g.cls), ", ".join((p0.get("type") or "?") for p0 in g.params[1:])), "%s::sink takes the record as `%s`" % (short(g.cls), t1), g, why_ok=t1)
+    ctx.need("R09.8", "thread-safe sink functions", nsk, 2)
     ctx.rule("R09.7", "a log statement is handed to the sink in one call (R10.4 re-evaluated): a record emitted in several sink calls is several lock scopes")
     if ctx.prop == "C09" and not getattr(ctx, "_sharing", False):
         from .common import share
